@@ -238,6 +238,23 @@ let gated_kinds = ["CallFunction2"; "AbortFunctionCall"; "QueryIntrospectionRepl
                    "SubscribeServiceReply"; "SubscribeAllEvents"; "SubscribeAllEventsReply";
                    "UnsubscribeAllEvents"; "UnsubscribeAllEventsReply"]
 
+(* C12 monitors on the implementation's own inputs and outputs, against the specification table
+   Broker/GateSpec.v (extracted; independent of the gates the model takes from broker.rs) *)
+let out_kind_min (k : string) : int =
+  let z = N0 in
+  let m = match k with
+    | "CallFunction2" -> Some (CallFunction2 (z, z, z, None, z))
+    | "AbortFunctionCall" -> Some (AbortFunctionCall z)
+    | "QueryIntrospectionReply" -> Some (QueryIntrospectionReply z)
+    | "QueryServiceInfoReply" -> Some (QueryServiceInfoReply (z, QIInvalid))
+    | "SubscribeServiceReply" -> Some (SubscribeServiceReply (z, true))
+    | "SubscribeAllEvents" -> Some (SubscribeAllEvents (None, z))
+    | "SubscribeAllEventsReply" -> Some (SubscribeAllEventsReply (z, SAOk))
+    | "UnsubscribeAllEvents" -> Some (UnsubscribeAllEvents (None, z))
+    | "UnsubscribeAllEventsReply" -> Some (UnsubscribeAllEventsReply (z, SAOk))
+    | _ -> None in
+  match m with Some x -> int_of_n (msg_min_version x) | None -> int_of_n (msg_min_version (Sync z))
+
 type step_obs = { outs : (int * string) list; closed : int list; stats : string; exit_ : string }
 
 let () =
@@ -247,6 +264,7 @@ let () =
   let cur_seed = ref "" in
   let state = ref init in
   let dropped : (int, unit) Hashtbl.t = Hashtbl.create 8 in
+  let vers : (int, int) Hashtbl.t = Hashtbl.create 8 in   (* negotiated minor version per connection, from the trace *)
   let evlog = ref [] in
   let dead = ref false in     (* history already diverged: skip the rest *)
   let cur_ev = ref None in
@@ -265,6 +283,25 @@ let () =
         (try
           let p = parse_event line in
           (match p.ev with DropTask c -> Hashtbl.replace dropped (int_of_n c) () | _ -> ());
+          (match p.ev with NewConnection (c, v) -> Hashtbl.replace vers (int_of_n c) (int_of_n v) | _ -> ());
+          (* C12 gate-out, on the implementation alone: no message kind newer than the receiver's version *)
+          List.iter (fun (c, t) ->
+            let k = kind_of_text t in
+            match Hashtbl.find_opt vers c with
+            | Some v when not !dead && out_kind_min k > v ->
+                report (Printf.sprintf "C12:implementation-sent-%s(since-1.%d)-to-a-connection-that-negotiated-1.%d" k (out_kind_min k) v)
+                  line (Printf.sprintf "%d:%s" c t) "-"
+            | _ -> ()) !obs_outs;
+          (* C12 gate-in, on the implementation alone: a message newer than the sender's version closes the sender *)
+          (match p.ev with
+           | Message (c, x) when not !dead && not (Hashtbl.mem dropped (int_of_n c)) ->
+               (match min_version_of x, Hashtbl.find_opt vers (int_of_n c) with
+                | Some need, Some v when int_of_n need > v && not (List.mem (int_of_n c) !obs_closed) ->
+                    report (Printf.sprintf "C12:connection-on-1.%d-sent-a-kind-introduced-in-1.%d-and-was-not-closed" v (int_of_n need))
+                      line (String.concat "," (List.map string_of_int !obs_closed)) "-"
+                | _ -> ())
+           | _ -> ());
+          if !dead then raise Exit;
           let before = List.map int_of_n (conn_ids !state) in
           (match step !state p.ev p.fresh p.bserial with
            | Panic site ->
@@ -339,7 +376,7 @@ let () =
                    end
                  end
                end)
-        with Failure m -> report ("DRIVER:" ^ m) line "-" "-")
+        with Failure m -> report ("DRIVER:" ^ m) line "-" "-" | Exit -> ())
     | Some _ -> () in
   (try
     while true do
@@ -347,7 +384,7 @@ let () =
       let len = String.length line in
       if len >= 5 && String.sub line 0 5 = "HIST " then begin
         cur_seed := String.sub line 5 (len - 5);
-        state := init; Hashtbl.reset dropped; evlog := []; dead := false; steps := 0; incr histories
+        state := init; Hashtbl.reset dropped; Hashtbl.reset vers; evlog := []; dead := false; steps := 0; incr histories
       end else if len >= 3 && String.sub line 0 3 = "EV " then begin
         cur_ev := Some (String.sub line 3 (len - 3)); obs_outs := []; obs_closed := []; obs_stats := ""; obs_exit := ""
       end else if len >= 4 && String.sub line 0 4 = "OUT " then begin
